@@ -2,13 +2,25 @@ package main
 
 import (
 	"fmt"
+	"go/ast"
+	"go/constant"
 	"go/token"
+	"go/types"
 	"sort"
+	"strings"
+
+	"golang.org/x/tools/go/ssa"
 )
 
 func init() {
 	register(
 		&Rule{ID: "R07.0", Props: []string{"C07"}, Floor: 55, Title: "every gorpc client call site resolves to constant (service, method) pairs with a registered RPCAPI method", Run: r070},
+		&Rule{ID: "R07.1", Props: []string{"C07"}, Floor: 50, Title: "the RPC methods of the registered services and the keys of DefaultRPCPolicy are the same set; every service is registered", Run: r071},
+		&Rule{ID: "R07.2", Props: []string{"C07"}, Floor: 5, Title: "the authorisation function answers true only for open endpoints, IsTrustedPeer(caller) for trusted ones, false otherwise, and is installed on every RPC server", Run: r072},
+		&Rule{ID: "R07.3", Props: []string{"C07"}, Floor: 3, Title: "open endpoints cannot reach pinset writes, the pin tracker or IPFS-driving calls", Run: r073},
+		&Rule{ID: "R07.4", Props: []string{"C07"}, Floor: 50, Title: "no endpoint is more permissive than in the reviewed policy table; new endpoints are closed, or trusted with a remote caller", Run: r074},
+		&Rule{ID: "R07.5", Props: []string{"C07"}, Floor: 6, Title: "trust predicates: raft trusts everyone; crdt trusts only under TrustAll, self or the trusted set; Trust/Distrust store/delete the same key; TrustAll only from '*'", Run: r075},
+		&Rule{ID: "R07.6", Props: []string{"C07"}, Floor: 2, Title: "the pubsub topic validator returns IsTrustedPeer(signer) and its registration is fail-closed", Run: r076},
 	)
 }
 
@@ -30,5 +42,754 @@ func r070(c *Ctx, r *R) {
 		}
 		r.OK(key+"->"+fmt.Sprint(ts), s.Call.Pos(), "%s call to %v (%s)", loc, ts, s.Targets[0].Via)
 	}
-	_ = token.NoPos
+}
+
+// policyTable reads the DefaultRPCPolicy composite literal.
+func (c *Ctx) policyTable(r *R) (map[string]string, map[string]token.Pos) {
+	pkg := c.P.Pkg("")
+	if pkg == nil {
+		r.Und("anchor:root-package", token.NoPos, "root package not loaded")
+		return nil, nil
+	}
+	tbl := map[string]string{}
+	poss := map[string]token.Pos{}
+	found := false
+	for _, f := range pkg.Syntax {
+		for _, d := range f.Decls {
+			gd, ok := d.(*ast.GenDecl)
+			if !ok || gd.Tok != token.VAR {
+				continue
+			}
+			for _, sp := range gd.Specs {
+				vs := sp.(*ast.ValueSpec)
+				for i, n := range vs.Names {
+					if n.Name != "DefaultRPCPolicy" || i >= len(vs.Values) {
+						continue
+					}
+					cl, ok := vs.Values[i].(*ast.CompositeLit)
+					if !ok {
+						r.Und("DefaultRPCPolicy", n.Pos(), "DefaultRPCPolicy is not a composite literal")
+						return nil, nil
+					}
+					found = true
+					for _, el := range cl.Elts {
+						kv, ok := el.(*ast.KeyValueExpr)
+						if !ok {
+							continue
+						}
+						k, ok := constStr(pkg, kv.Key)
+						if !ok {
+							r.Und("DefaultRPCPolicy:key", kv.Pos(), "non-constant key in DefaultRPCPolicy")
+							continue
+						}
+						v := constVal(pkg, kv.Value)
+						name := types.ExprString(kv.Value)
+						if v == nil {
+							r.Und("DefaultRPCPolicy:"+k, kv.Pos(), "non-constant endpoint type %s", name)
+							continue
+						}
+						if _, dup := tbl[k]; dup {
+							r.Bad("DefaultRPCPolicy:dup:"+k, kv.Pos(), "duplicate policy entry %s", k)
+						}
+						tbl[k] = levelName(v)
+						poss[k] = kv.Pos()
+					}
+				}
+			}
+		}
+	}
+	if !found {
+		r.Und("DefaultRPCPolicy", token.NoPos, "DefaultRPCPolicy not found")
+		return nil, nil
+	}
+	return tbl, poss
+}
+
+func levelName(v constant.Value) string {
+	i, _ := constant.Int64Val(v)
+	switch i {
+	case 0:
+		return "closed"
+	case 1:
+		return "trusted"
+	case 2:
+		return "open"
+	}
+	return fmt.Sprintf("unknown(%d)", i)
+}
+
+var levelRank = map[string]int{"closed": 0, "trusted": 1, "open": 2}
+
+func r071(c *Ctx, r *R) {
+	// the endpoint type constants must keep the meaning levelName assumes
+	for i, n := range []string{"RPCClosed", "RPCTrusted", "RPCOpen"} {
+		v := c.constNamed("", n)
+		if v == nil {
+			r.Und("const:"+n, token.NoPos, "constant %s not found", n)
+			return
+		}
+		if iv, _ := constant.Int64Val(v); iv != int64(i) {
+			r.Und("const:"+n, token.NoPos, "constant %s = %s, checker assumes %d", n, v, i)
+			return
+		}
+	}
+	tbl, poss := c.policyTable(r)
+	if tbl == nil {
+		return
+	}
+	methods := c.rpcMethods()
+	if len(c.serviceTypes()) < 5 {
+		r.Und("services", token.NoPos, "RPCServiceID names %d services, expected 5", len(c.serviceTypes()))
+	}
+	var names []string
+	for n := range methods {
+		names = append(names, n)
+	}
+	sort.Strings(names)
+	for _, n := range names {
+		if lvl, ok := tbl[n]; ok {
+			r.OK("method:"+n, methods[n].Pos(), "RPC method %s has policy entry (%s)", n, lvl)
+		} else {
+			r.Bad("method:"+n, methods[n].Pos(), "RPC method %s has no entry in DefaultRPCPolicy: the authoriser denies it, and Config.Validate (isRPCPolicyValid) rejects the configuration", n)
+		}
+	}
+	for k := range tbl {
+		if _, ok := methods[k]; !ok {
+			r.Bad("entry:"+k, poss[k], "policy entry %s names no RPC method of a registered service", k)
+		}
+	}
+	// every service type is registered with RegisterName(RPCServiceID(x), x)
+	f := c.fn(r, "", "newRPCServer")
+	if f == nil {
+		return
+	}
+	regs := findCalls(f, false, "go-libp2p-gorpc.Server).RegisterName")
+	registered := map[string]bool{}
+	for _, ci := range regs {
+		args := callArgs(ci.Common())
+		if len(args) != 2 {
+			continue
+		}
+		idc, _ := originCall(args[0])
+		if idc == nil || !nameMatches(callName(idc.Common()), ModPath+".RPCServiceID") {
+			s, _ := constString(args[0])
+			r.Bad("register:"+s, ci.Pos(), "service registered under a name not produced by RPCServiceID")
+			continue
+		}
+		t := strip(args[1]).Type()
+		t2 := strip(idc.Common().Args[0]).Type()
+		if !types.Identical(t, t2) {
+			r.Bad("register:"+t.String(), ci.Pos(), "RegisterName(RPCServiceID(%s), %s): name and receiver differ", t2, t)
+			continue
+		}
+		if p, ok := t.(*types.Pointer); ok {
+			if nt, ok := p.Elem().(*types.Named); ok {
+				registered[nt.Obj().Name()] = true
+			}
+		}
+	}
+	for svc, nt := range c.serviceTypes() {
+		r.Check(registered[nt.Obj().Name()], "registered:"+svc, f.Pos(), "service "+svc+" is registered on the RPC server", "service "+svc+" ("+nt.Obj().Name()+") is never registered on the RPC server")
+	}
+}
+
+func r072(c *Ctx, r *R) {
+	f := c.fn(r, "", "newRPCServer")
+	if f == nil {
+		return
+	}
+	// the closure passed to WithAuthorizeFunc
+	var auth *ssa.Function
+	wa := findCalls(f, false, "go-libp2p-gorpc.WithAuthorizeFunc")
+	for _, ci := range wa {
+		if g := fnOfValue(ci.Common().Args[0]); g != nil {
+			if auth != nil && auth != g {
+				r.Und("authF", ci.Pos(), "several different authorisation functions")
+				return
+			}
+			auth = g
+		} else {
+			r.Und("authF", ci.Pos(), "authorisation function is not a closure defined in newRPCServer")
+			return
+		}
+	}
+	if auth == nil {
+		r.Bad("authF", f.Pos(), "no rpc.WithAuthorizeFunc in newRPCServer: every remote call would be authorised")
+		return
+	}
+	// every NewServer call gets WithAuthorizeFunc(auth)
+	ns := findCalls(f, false, "go-libp2p-gorpc.NewServer")
+	if len(ns) == 0 {
+		r.Und("NewServer", f.Pos(), "no rpc.NewServer call found")
+	}
+	for i, ci := range ns {
+		args := ci.Common().Args
+		ok := false
+		for _, el := range variadicElems(args[len(args)-1]) {
+			if call, _ := originCall(el); call != nil && nameMatches(callName(call.Common()), "go-libp2p-gorpc.WithAuthorizeFunc") && fnOfValue(call.Common().Args[0]) == auth {
+				ok = true
+			}
+		}
+		r.Check(ok, fmt.Sprintf("NewServer#%d", i+1), ci.Pos(), "rpc.NewServer receives WithAuthorizeFunc(authF)", "rpc.NewServer is created WITHOUT the authorisation function: all endpoints are open on this construction path")
+	}
+	// the server that gets the services registered is one of those
+	// shape of the closure
+	if len(auth.Params) != 3 {
+		r.Und("authF:params", auth.Pos(), "authorisation closure has %d parameters", len(auth.Params))
+		return
+	}
+	open := c.constNamed("", "RPCOpen")
+	trusted := c.constNamed("", "RPCTrusted")
+	isType := func(v ssa.Value) bool { // the looked-up endpoint type
+		l, idx := mapLookupOf(v)
+		if l == nil || idx != 0 {
+			return false
+		}
+		fld, _ := fieldLoad(l.X)
+		return fld != nil && fld.Name() == "RPCPolicy"
+	}
+	leaves := returnLeaves(auth, 0)
+	if len(leaves) == 0 {
+		r.Und("authF:returns", auth.Pos(), "no return found")
+	}
+	nTrue, nTrust := 0, 0
+	for _, lf := range leaves {
+		gs := guardsOf(lf.Block)
+		if k, isK := constOf(lf.Val); isK {
+			if k == nil || !constant.BoolVal(k) {
+				r.OK("authF:false", lf.Pos, "path returns false (deny)")
+				continue
+			}
+			okOpen, okFound := false, false
+			for _, g := range gs {
+				if gEq(g, open, true, isType) {
+					okOpen = true
+				}
+				if l, idx := mapLookupOf(g.Cond); l != nil && idx == 1 && g.Branch {
+					okFound = true
+				}
+			}
+			nTrue++
+			r.Check(okOpen && okFound, "authF:true", lf.Pos, "constant true only when the policy entry exists and equals RPCOpen",
+				"authorisation returns true on a path that is not guarded by `entry found && type == RPCOpen`")
+			continue
+		}
+		call, _ := originCall(lf.Val)
+		if call != nil && nameMatches(callName(call.Common()), ").IsTrustedPeer") {
+			args := callArgs(call.Common())
+			pidOK := len(args) == 2 && paramIndex(auth, args[1]) == 0
+			okT := false
+			for _, g := range gs {
+				if gEq(g, trusted, true, isType) {
+					okT = true
+				}
+			}
+			nTrust++
+			r.Check(pidOK && okT, "authF:trusted", call.Pos(), "trusted endpoints answer consensus.IsTrustedPeer(caller)",
+				"IsTrustedPeer result is returned but not for the caller's peer id under type == RPCTrusted")
+			continue
+		}
+		r.Bad("authF:other", lf.Pos, "authorisation returns a value that is neither false, true-for-open nor IsTrustedPeer(caller): %s", lf.Val)
+	}
+	r.Check(nTrust >= 1, "authF:has-trusted-path", auth.Pos(), "a trusted path exists", "no path consults IsTrustedPeer: trusted endpoints are unreachable or decided otherwise")
+	// lookup key is svc + "." + method
+	keyOK := false
+	instrs(auth, func(i ssa.Instruction) {
+		l, ok := i.(*ssa.Lookup)
+		if !ok {
+			return
+		}
+		// X + "." + Y
+		if b, ok := l.Index.(*ssa.BinOp); ok && b.Op == token.ADD {
+			if b2, ok := b.X.(*ssa.BinOp); ok && b2.Op == token.ADD {
+				dot, _ := constString(b2.Y)
+				if paramIndex(auth, b2.X) == 1 && dot == "." && paramIndex(auth, b.Y) == 2 {
+					keyOK = true
+				}
+			}
+		}
+	})
+	r.Check(keyOK, "authF:key", auth.Pos(), "policy is looked up under svc+\".\"+method of the incoming call", "policy lookup key is not svc+\".\"+method of the incoming call")
+}
+
+// mutatingSinks are the calls an untrusted peer must never be able to cause.
+var c07Sinks = []string{
+	").LogPin", ").LogUnpin", ").RmPeer",
+	ModPath + ".PinTracker).Track", ModPath + ".PinTracker).Untrack", ModPath + ".PinTracker).Recover", ModPath + ".PinTracker).RecoverAll",
+	ModPath + ".PinTracker).Status", ModPath + ".PinTracker).StatusAll",
+	ModPath + ".IPFSConnector).Pin", ModPath + ".IPFSConnector).Unpin", ModPath + ".IPFSConnector).PinLs", ModPath + ".IPFSConnector).PinLsCid",
+	ModPath + ".IPFSConnector).BlockPut", ModPath + ".IPFSConnector).BlockGet", ModPath + ".IPFSConnector).RepoGC",
+	ModPath + ".IPFSConnector).ConfigKey", ModPath + ".IPFSConnector).Resolve",
+	ModPath + ".Consensus).State", "/state.State).List", "/state.ReadOnly).List", "/state.ReadOnly).Get",
+}
+
+func r073(c *Ctx, r *R) {
+	tbl, poss := c.policyTable(r)
+	if tbl == nil {
+		return
+	}
+	var open []string
+	for k, v := range tbl {
+		if v == "open" {
+			open = append(open, k)
+		}
+	}
+	sort.Strings(open)
+	// control: the search must find the path a closed write endpoint has
+	if m := c.rpcMethod("Cluster", "Pin"); m == nil || c.pathTo(m, sinkNamed(").LogPin"), reachOpt{}) == nil {
+		r.Und("control:Cluster.Pin->LogPin", token.NoPos, "the reachability search does not find Cluster.Pin -> Consensus.LogPin: the call graph is blind, open endpoints cannot be cleared")
+	}
+	if m := c.rpcMethod("Cluster", "PeerRemove"); m == nil || c.pathTo(m, sinkNamed(ModPath+".IPFSConnector).Pin"), reachOpt{}) != nil {
+		// PeerRemove re-pins through consensus only; reaching IPFS Pin
+		// synchronously would indicate a graph far too coarse to be useful
+		r.Und("control:precision", token.NoPos, "the reachability search is too coarse (Cluster.PeerRemove reaches IPFSConnector.Pin)")
+	}
+	for _, ep := range open {
+		parts := strings.SplitN(ep, ".", 2)
+		m := c.rpcMethod(parts[0], parts[1])
+		if m == nil {
+			r.Und("open:"+ep, poss[ep], "open endpoint %s has no RPCAPI method", ep)
+			continue
+		}
+		path := c.pathTo(m, sinkNamed(c07Sinks...), reachOpt{})
+		if path != nil {
+			r.Bad("open:"+ep, m.Pos(), "open endpoint %s (callable by any peer) reaches a pinset/tracker/IPFS operation: %s", ep, strings.Join(path, " -> "))
+		} else {
+			r.OK("open:"+ep, m.Pos(), "open endpoint %s reaches none of %d sink patterns", ep, len(c07Sinks))
+		}
+	}
+}
+
+// refPolicy is the policy table of the pinned commit, reviewed against the
+// call sites (R07.0): every trusted endpoint has a remote caller except the
+// two marked. It is the oracle for "meant for local use": intent exists only
+// as this table, so any loosening relative to it is reported.
+var refPolicy = map[string]string{
+	"Cluster.BlockAllocate": "closed", "Cluster.ConnectGraph": "closed", "Cluster.ID": "open", "Cluster.Join": "closed",
+	"Cluster.PeerAdd": "open", "Cluster.PeerRemove": "trusted" /* upstream choice, no remote caller */, "Cluster.Peers": "trusted",
+	"Cluster.Pin": "closed", "Cluster.PinGet": "closed", "Cluster.PinPath": "closed", "Cluster.Pins": "closed",
+	"Cluster.Recover": "closed", "Cluster.RecoverAll": "closed", "Cluster.RecoverAllLocal": "trusted",
+	"Cluster.RecoverLocal": "trusted" /* upstream choice, no remote caller */, "Cluster.RepoGC": "closed", "Cluster.RepoGCLocal": "trusted",
+	"Cluster.SendInformerMetric": "closed", "Cluster.SendInformersMetrics": "closed", "Cluster.Alerts": "closed",
+	"Cluster.Status": "closed", "Cluster.StatusAll": "closed", "Cluster.StatusAllLocal": "closed", "Cluster.StatusLocal": "closed",
+	"Cluster.Unpin": "closed", "Cluster.UnpinPath": "closed", "Cluster.Version": "open",
+	"PinTracker.Recover": "trusted", "PinTracker.RecoverAll": "closed", "PinTracker.Status": "trusted", "PinTracker.StatusAll": "trusted",
+	"PinTracker.Track": "closed", "PinTracker.Untrack": "closed",
+	"IPFSConnector.BlockGet": "closed", "IPFSConnector.BlockPut": "trusted", "IPFSConnector.ConfigKey": "closed", "IPFSConnector.Pin": "closed",
+	"IPFSConnector.PinLs": "closed", "IPFSConnector.PinLsCid": "closed", "IPFSConnector.RepoStat": "trusted", "IPFSConnector.Resolve": "closed",
+	"IPFSConnector.SwarmPeers": "trusted", "IPFSConnector.Unpin": "closed",
+	"Consensus.AddPeer": "trusted", "Consensus.LogPin": "trusted", "Consensus.LogUnpin": "trusted", "Consensus.Peers": "closed", "Consensus.RmPeer": "trusted",
+	"PeerMonitor.LatestMetrics": "closed", "PeerMonitor.MetricNames": "closed",
+}
+
+func r074(c *Ctx, r *R) {
+	tbl, poss := c.policyTable(r)
+	if tbl == nil {
+		return
+	}
+	remote := map[string]bool{}
+	for _, s := range c.RPC {
+		if s.Resolved && !s.Local {
+			for _, t := range s.Targets {
+				remote[t.Svc+"."+t.Method] = true
+			}
+		}
+	}
+	var keys []string
+	for k := range tbl {
+		keys = append(keys, k)
+	}
+	sort.Strings(keys)
+	for _, k := range keys {
+		lvl := tbl[k]
+		ref, known := refPolicy[k]
+		if _, okl := levelRank[lvl]; !okl {
+			r.Bad("policy:"+k, poss[k], "endpoint %s has unknown type %s", k, lvl)
+			continue
+		}
+		if known {
+			if levelRank[lvl] > levelRank[ref] {
+				r.Bad("policy:"+k, poss[k], "endpoint %s is %s, the reviewed table has it %s: access was loosened", k, lvl, ref)
+			} else {
+				r.OK("policy:"+k, poss[k], "endpoint %s is %s (reviewed: %s)", k, lvl, ref)
+			}
+			continue
+		}
+		switch {
+		case lvl == "closed":
+			r.OK("policy:"+k, poss[k], "new endpoint %s is closed", k)
+		case lvl == "trusted" && remote[k]:
+			r.OK("policy:"+k, poss[k], "new endpoint %s is trusted and has a remote call site", k)
+		default:
+			r.Bad("policy:"+k, poss[k], "new endpoint %s is %s without being in the reviewed table (new endpoints must be closed, or trusted with a remote caller)", k, lvl)
+		}
+	}
+	// the policy in use is the default table unless tightened
+	c.P.RepoFuncs(func(f *ssa.Function) {
+		if isTestSupportFn(f) {
+			return
+		}
+		instrs(f, func(i ssa.Instruction) {
+			mu, ok := i.(*ssa.MapUpdate)
+			if !ok {
+				return
+			}
+			fld, _ := fieldLoad(mu.Map)
+			if fld == nil || fld.Name() != "RPCPolicy" {
+				return
+			}
+			k, okk := constString(mu.Key)
+			v, okv := constOf(mu.Value)
+			if !okk || !okv || v == nil {
+				r.Und("policy-update:"+f.String(), mu.Pos(), "RPC policy modified at run time with non-constant key/value")
+				return
+			}
+			lvl := levelName(v)
+			ref, known := refPolicy[k]
+			if !known || levelRank[lvl] > levelRank[ref] {
+				r.Bad("policy-update:"+k, mu.Pos(), "%s sets policy %s=%s, looser than the reviewed %s", f, k, lvl, ref)
+			} else {
+				r.OK("policy-update:"+k, mu.Pos(), "%s tightens %s to %s", f, k, lvl)
+			}
+		})
+	})
+}
+
+func r075(c *Ctx, r *R) {
+	// raft: constant true
+	if f := c.fn(r, "consensus/raft", "Consensus.IsTrustedPeer"); f != nil {
+		ok := true
+		for _, lf := range returnLeaves(f, 0) {
+			k, isK := constOf(lf.Val)
+			if !isK || k == nil || !constant.BoolVal(k) {
+				ok = false
+			}
+		}
+		r.Check(ok, "raft.IsTrustedPeer", f.Pos(), "raft trusts every peer (constant true)", "raft IsTrustedPeer is no longer constant true: 'every peer in Raft mode' is broken")
+	}
+	// crdt
+	f := c.fn(r, "consensus/crdt", "Consensus.IsTrustedPeer")
+	if f != nil {
+		pidIdx := 2 // (css, ctx, pid)
+		for _, lf := range returnLeaves(f, 0) {
+			gs := guardsOf(lf.Block)
+			if k, isK := constOf(lf.Val); isK {
+				if k == nil || !constant.BoolVal(k) {
+					r.OK("crdt.IsTrustedPeer:false", lf.Pos, "returns false")
+					continue
+				}
+				okG := false
+				why := ""
+				for _, g := range gs {
+					if gField(g, "TrustAll", true) {
+						okG, why = true, "config.TrustAll"
+					}
+					if b, ok := g.Cond.(*ssa.BinOp); ok && b.Op == token.EQL && g.Branch {
+						// pid == css.host.ID()
+						var other ssa.Value
+						if paramIndex(f, b.X) == pidIdx {
+							other = b.Y
+						} else if paramIndex(f, b.Y) == pidIdx {
+							other = b.X
+						}
+						if other != nil {
+							if call, _ := originCall(other); call != nil && nameMatches(callName(call.Common()), "host.Host).ID") {
+								okG, why = true, "pid == host.ID()"
+							}
+						}
+					}
+				}
+				r.Check(okG, "crdt.IsTrustedPeer:true:"+why, lf.Pos, "constant true only under "+why, "crdt IsTrustedPeer returns true on a path not guarded by TrustAll or pid == own id")
+				continue
+			}
+			// _, ok := trustedPeers.Load(pid)
+			call, idx := originCall(lf.Val)
+			if call != nil && idx == 1 && nameMatches(callName(call.Common()), "(*sync.Map).Load") {
+				args := callArgs(call.Common())
+				fld, _ := fieldOfAddrValue(call.Common().Args[0])
+				r.Check(len(args) == 1 && paramIndex(f, args[0]) == pidIdx && fld != nil && fld.Name() == "trustedPeers", "crdt.IsTrustedPeer:load", call.Pos(),
+					"otherwise answers membership of pid in trustedPeers", "membership test is not trustedPeers.Load(pid)")
+				continue
+			}
+			r.Bad("crdt.IsTrustedPeer:other", lf.Pos, "returns something other than TrustAll/self/trustedPeers membership: %s", lf.Val)
+		}
+	}
+	// Trust stores pid, Distrust deletes pid, same map
+	checkKey := func(name, method string) {
+		g := c.fn(r, "consensus/crdt", "Consensus."+name)
+		if g == nil {
+			return
+		}
+		calls := findCalls(g, false, "(*sync.Map)."+method)
+		ok := false
+		for _, ci := range calls {
+			args := callArgs(ci.Common())
+			fld, _ := fieldOfAddrValue(ci.Common().Args[0])
+			if len(args) >= 1 && paramIndex(g, args[0]) == 2 && fld != nil && fld.Name() == "trustedPeers" {
+				// must not be conditional
+				if len(guardsOf(ci.Block())) == 0 {
+					ok = true
+				}
+			}
+		}
+		r.Check(ok, "crdt."+name, g.Pos(), name+" unconditionally calls trustedPeers."+method+"(pid)", name+" does not unconditionally call trustedPeers."+method+"(pid): trust would not follow Trust/Distrust calls")
+	}
+	checkKey("Trust", "Store")
+	checkKey("Distrust", "Delete")
+	// setup trusts every configured peer
+	if s := c.fn(r, "consensus/crdt", "Consensus.setup"); s != nil {
+		ok := false
+		for _, ci := range findCalls(s, false, "crdt.Consensus).Trust") {
+			args := callArgs(ci.Common())
+			// argument is an element of config.TrustedPeers (range loop)
+			if len(args) == 2 && derivesFromField(args[1], "TrustedPeers", 6) {
+				ok = true
+			}
+		}
+		r.Check(ok, "crdt.setup:trust-config", s.Pos(), "setup calls Trust for the elements of config.TrustedPeers", "setup no longer trusts the peers listed in config.TrustedPeers")
+	}
+	// TrustAll := true only under p == "*" ; reset to false before
+	fd, pkg := c.decl(r, "consensus/crdt", "Config.applyJSONConfig")
+	if fd != nil {
+		var sets []struct {
+			val  bool
+			star bool
+			pos  token.Pos
+		}
+		var walk func(n ast.Node, underStar bool)
+		walk = func(n ast.Node, underStar bool) {
+			ast.Inspect(n, func(x ast.Node) bool {
+				switch s := x.(type) {
+				case *ast.IfStmt:
+					star := false
+					if be, ok := s.Cond.(*ast.BinaryExpr); ok && be.Op == token.EQL {
+						if v, ok := constStr(pkg, be.Y); ok && v == "*" {
+							star = true
+						}
+						if v, ok := constStr(pkg, be.X); ok && v == "*" {
+							star = true
+						}
+					}
+					if s.Init != nil {
+						walk(s.Init, underStar)
+					}
+					walk(s.Body, underStar || star)
+					if s.Else != nil {
+						walk(s.Else, underStar)
+					}
+					return false
+				case *ast.AssignStmt:
+					for i, l := range s.Lhs {
+						se, ok := l.(*ast.SelectorExpr)
+						if !ok || se.Sel.Name != "TrustAll" || i >= len(s.Rhs) {
+							continue
+						}
+						v := constVal(pkg, s.Rhs[i])
+						if v == nil {
+							sets = append(sets, struct {
+								val  bool
+								star bool
+								pos  token.Pos
+							}{true, false, s.Pos()})
+							continue
+						}
+						sets = append(sets, struct {
+							val  bool
+							star bool
+							pos  token.Pos
+						}{constant.BoolVal(v), underStar, s.Pos()})
+					}
+				}
+				return true
+			})
+		}
+		walk(fd.Body, false)
+		hasFalse, ok := false, true
+		for _, s := range sets {
+			if !s.val {
+				hasFalse = true
+			} else if !s.star {
+				ok = false
+			}
+		}
+		r.Check(ok && hasFalse && len(sets) >= 2, "crdt.config:TrustAll", fd.Pos(), "loading JSON resets TrustAll and sets it only under the literal \"*\"", "TrustAll can become true from JSON without the \"*\" entry (or is not reset)")
+	}
+}
+
+// fieldOfAddrValue: v is &x.f (FieldAddr) -> f.
+func fieldOfAddrValue(v ssa.Value) (*types.Var, ssa.Value) {
+	if fa, ok := v.(*ssa.FieldAddr); ok {
+		return fieldOfAddr(fa), fa.X
+	}
+	return nil, nil
+}
+
+// derivesFromField: v is computed (loads, index, range/next, extract, phi)
+// from a load of a field with the given name.
+func derivesFromField(v ssa.Value, field string, depth int) bool {
+	if depth < 0 || v == nil {
+		return false
+	}
+	if f, _ := fieldLoad(v); f != nil && f.Name() == field {
+		return true
+	}
+	switch x := v.(type) {
+	case *ssa.UnOp:
+		return derivesFromField(x.X, field, depth-1)
+	case *ssa.IndexAddr:
+		return derivesFromField(x.X, field, depth-1)
+	case *ssa.Index:
+		return derivesFromField(x.X, field, depth-1)
+	case *ssa.Extract:
+		return derivesFromField(x.Tuple, field, depth-1)
+	case *ssa.Next:
+		return derivesFromField(x.Iter, field, depth-1)
+	case *ssa.Range:
+		return derivesFromField(x.X, field, depth-1)
+	case *ssa.Phi:
+		for _, e := range x.Edges {
+			if derivesFromField(e, field, depth-1) {
+				return true
+			}
+		}
+	case *ssa.FieldAddr:
+		if fieldOfAddr(x) != nil && fieldOfAddr(x).Name() == field {
+			return true
+		}
+		return derivesFromField(x.X, field, depth-1)
+	case *ssa.ChangeType:
+		return derivesFromField(x.X, field, depth-1)
+	case *ssa.MakeInterface:
+		return derivesFromField(x.X, field, depth-1)
+	case *ssa.Slice:
+		return derivesFromField(x.X, field, depth-1)
+	}
+	return false
+}
+
+func r076(c *Ctx, r *R) {
+	s := c.fn(r, "consensus/crdt", "Consensus.setup")
+	if s == nil {
+		return
+	}
+	regs := findCalls(s, false, "go-libp2p-pubsub.PubSub).RegisterTopicValidator")
+	if len(regs) == 0 {
+		r.Bad("validator:registered", s.Pos(), "setup registers no pubsub topic validator: updates from untrusted peers are merged")
+		return
+	}
+	for _, ci := range regs {
+		args := callArgs(ci.Common())
+		if len(args) < 2 {
+			r.Und("validator:args", ci.Pos(), "unexpected RegisterTopicValidator arguments")
+			continue
+		}
+		v := fnOfValue(args[1])
+		if v == nil {
+			r.Und("validator:fn", ci.Pos(), "validator is not a function literal")
+			continue
+		}
+		okAll := true
+		n := 0
+		for _, lf := range returnLeaves(v, 0) {
+			n++
+			call, _ := originCall(lf.Val)
+			if call == nil || !nameMatches(callName(call.Common()), "crdt.Consensus).IsTrustedPeer") {
+				okAll = false
+				continue
+			}
+			a := callArgs(call.Common())
+			from, _ := originCall(a[1])
+			if from == nil || !nameMatches(callName(from.Common()), "pubsub.Message).GetFrom") {
+				okAll = false
+			}
+		}
+		r.Check(okAll && n > 0, "validator:returns", v.Pos(), "validator returns IsTrustedPeer(msg.GetFrom())", "topic validator does not return IsTrustedPeer(msg.GetFrom()) on every path")
+		// same topic as the broadcaster
+		bc := findCalls(s, false, "go-ds-crdt.NewPubSubBroadcaster")
+		sameTopic := false
+		for _, b := range bc {
+			ba := b.Common().Args
+			if len(ba) >= 3 && sameValue(ba[2], args[0]) {
+				sameTopic = true
+			}
+		}
+		r.Check(sameTopic, "validator:topic", ci.Pos(), "validator is registered on the topic the broadcaster subscribes to", "validator topic differs from the broadcaster's topic")
+		// fail-closed: the error of the registration is tested and the
+		// error edge does not reach crdt.New / NewPubSubBroadcaster
+		errV := ssa.Value(nil)
+		if cv, ok := ci.(ssa.Value); ok {
+			errV = cv
+		}
+		failClosed := false
+		if errV != nil {
+			for _, b := range s.Blocks {
+				iff, ok := b.Instrs[len(b.Instrs)-1].(*ssa.If)
+				if !ok {
+					continue
+				}
+				x, tn, ok := nilCmp(iff.Cond)
+				if !ok {
+					continue
+				}
+				isErr := false
+				for _, l := range phiLeaves(x) {
+					if l == errV {
+						isErr = true
+					}
+				}
+				if !isErr {
+					continue
+				}
+				errSucc := b.Succs[1]
+				if tn {
+					errSucc = b.Succs[0]
+				}
+				// error edge must not reach the datastore construction
+				if !blockReachesCall(errSucc, b, "go-ds-crdt.New", "go-ds-crdt.NewPubSubBroadcaster") {
+					failClosed = true
+				}
+			}
+		}
+		r.Check(failClosed, "validator:fail-closed", ci.Pos(), "a failed validator registration aborts setup before the CRDT datastore is created",
+			"the registration error is ignored or only logged: setup goes on to create the CRDT datastore without a trust gate (fail-open)")
+	}
+}
+
+func sameValue(a, b ssa.Value) bool {
+	la, lb := phiLeaves(a), phiLeaves(b)
+	if len(la) != len(lb) {
+		return false
+	}
+	for i := range la {
+		if la[i] != lb[i] {
+			return false
+		}
+	}
+	return true
+}
+
+// blockReachesCall: starting at block `from` (not passing through `avoid`
+// again is irrelevant in a DAG; loops are handled by the visited set), is a
+// call matching pats reachable within the function?
+func blockReachesCall(from, avoid *ssa.BasicBlock, pats ...string) bool {
+	seen := map[*ssa.BasicBlock]bool{}
+	var walk func(b *ssa.BasicBlock) bool
+	walk = func(b *ssa.BasicBlock) bool {
+		if seen[b] {
+			return false
+		}
+		seen[b] = true
+		for _, i := range b.Instrs {
+			if ci, ok := i.(ssa.CallInstruction); ok && nameMatches(callName(ci.Common()), pats...) {
+				return true
+			}
+		}
+		for _, s := range b.Succs {
+			if walk(s) {
+				return true
+			}
+		}
+		return false
+	}
+	return walk(from)
 }
